@@ -827,3 +827,88 @@ def exit_coverage(facts, summ, fn, op_pred, pred, key):
         normal_ok = normal_ok and n_ok
         exc_ok = exc_ok and e_ok
     return len(ops), normal_ok, exc_ok, notes
+
+
+# ---------------------------------------------------------------------------------------------------------------
+# small interprocedural integer evaluation over a finite domain (used for index arithmetic whose operands are bounded by a
+# compile-time table size: the expression is evaluated on EVERY value of the domain, not sampled)
+def ipeval(facts, fn, x, env, depth=0, _defs=None):
+    """value of integer expression node x of fn with variables bound by env {var id: int}; follows locals with a unique reaching
+    definition and calls of functions whose body is a single return statement; tbb::detail::log2 is the floor of the binary
+    logarithm (trusted).  None = not evaluable."""
+    from engine.rules import Defs
+    if x is None or x < 0 or depth > 6:
+        return None
+    c = fn.cv(x)
+    if c is not None:
+        return c
+    n = fn.n(x)
+    k = n.get('k')
+    if k in ('rd', 'paren'):
+        return ipeval(facts, fn, n['sub'], env, depth, _defs)
+    if k == 'cast':
+        v = ipeval(facts, fn, n['sub'], env, depth, _defs)
+        to = n.get('to')
+        if v is not None and to and to[0] and to[0] <= 64:
+            v &= (1 << to[0]) - 1
+            if to[1] and v >= 1 << (to[0] - 1):
+                v -= 1 << to[0]
+        return v
+    if k == 'var':
+        if n.get('v') in env:
+            return env[n['v']]
+        _defs = _defs if _defs is not None else {}
+        if fn.u not in _defs:
+            _defs[fn.u] = Defs(fn)
+        uv = _defs[fn.u].unique_value(x)
+        return ipeval(facts, fn, uv, env, depth + 1, _defs) if uv is not None else None
+    if k == 'unop':
+        v = ipeval(facts, fn, n['sub'], env, depth, _defs)
+        if v is None:
+            return None
+        return {'-': -v, '~': ~v, '!': int(not v), '+': v}.get(n['op'])
+    if k == 'binop':
+        op = n['op']
+        a = ipeval(facts, fn, n['l'], env, depth, _defs)
+        if op == '&&' and a == 0:
+            return 0
+        if op == '||' and a not in (0, None):
+            return 1
+        b = ipeval(facts, fn, n['r'], env, depth, _defs)
+        if a is None or b is None:
+            return None
+        if op in ('%', '/'):
+            if b == 0:
+                return None
+            q = abs(a) // abs(b)
+            if (a < 0) != (b < 0):
+                q = -q
+            return q if op == '/' else a - q * b
+        if op in ('<<', '>>') and not 0 <= b < 64:
+            return None
+        f = {'+': lambda: a + b, '-': lambda: a - b, '*': lambda: a * b, '&': lambda: a & b, '|': lambda: a | b, '^': lambda: a ^ b,
+             '<<': lambda: a << b, '>>': lambda: a >> b, '==': lambda: int(a == b), '!=': lambda: int(a != b), '<': lambda: int(a < b),
+             '<=': lambda: int(a <= b), '>': lambda: int(a > b), '>=': lambda: int(a >= b), '&&': lambda: int(bool(a) and bool(b)),
+             '||': lambda: int(bool(a) or bool(b))}.get(op)
+        return f() if f else None
+    if k == 'cond':
+        c0 = ipeval(facts, fn, n['c'], env, depth, _defs)
+        if c0 is None:
+            return None
+        return ipeval(facts, fn, n['l'] if c0 else n['r'], env, depth, _defs)
+    if k == 'call':
+        d = fn.callee(x) or {}
+        args = [ipeval(facts, fn, a, env, depth, _defs) for a in n.get('a', [])]
+        if (d.get('p') or '').endswith('detail::log2') and len(args) == 1:
+            return args[0].bit_length() - 1 if args[0] and args[0] > 0 else None
+        g = facts.fns.get(n.get('fn'))
+        if g is None or any(a is None for a in args):
+            return None
+        rets = [nd for pos, s, nd in g.stmt_elems(('return',)) if nd.get('sub', -1) >= 0]
+        if len(rets) != 1:
+            return None
+        ps = g.d.get('params', [])
+        if len(ps) != len(args):
+            return None
+        return ipeval(facts, g, rets[0]['sub'], dict((p['v'], a) for p, a in zip(ps, args)), depth + 1, _defs)
+    return None
